@@ -46,6 +46,7 @@ def observe(spec, inputs):
             P2 = c2.ge_polyhedron
             got = [[int(v.bounds.lower), int(v.bounds.upper)] for v in P2.variables]
             _clear_caches(n)
+            C.clear_all_caches()
             c2b = plspec.build(n, boxed("2"), env)
             P2f = c2b.ge_polyhedron
             fresh = [[int(v.bounds.lower), int(v.bounds.upper)] for v in P2f.variables]
